@@ -233,19 +233,63 @@ def nparams(k, weights=False):
     return lambda d: len(astload.param_types(d)) == k and (('sample_weights_t' in ' '.join(astload.param_types(d))) == weights)
 
 
-def build_sampler(name, cxx, select, input_name, weighted=False, replacement=True):
+def sampler_requires(n, count, replacement):
+    """with replacement: 0 <= count and a non-empty input -- the library's own assert(min <= max) inside
+    make_udist(0, size-1) / a non-empty weight range for std::discrete_distribution;
+    without replacement: the library's own assert(count <= samples.size()); property: counts 0..n"""
+    if replacement:
+        return [('0 <= count', f'(and (<= 0 {count}) (<= {count} {NMAX}))'), ('non-empty input', f'(>= {n} 1)')]
+    return [('0 <= count <= size', f'(and (<= 0 {count}) (<= {count} {n}))')]
+
+
+def sampler_ensures(e, replacement, weighted, count='count'):
+    out = [('returns `count` indices', f'(= {e("size")} {count})'),
+           ('every slot of the result is filled exactly once', filled_once(e)),
+           ('every element of the result is a member of the input', e('memb')),
+           ('the result is sorted', whole_sorted(e))]
+    if not replacement:
+        out.append(('the members are distinct: input element g is taken at most once, and only if it exists',
+                    f'(and (<= 0 {e("cnt")}) (<= {e("cnt")} {ING}))'))
+    if weighted:
+        out.append(('no returned index has zero weight (given std::discrete_distribution never draws one)', e('poswt')))
+    return out
+
+
+def h_sampler_call(replacement, weighted):
+    """call of the rng-taking overload, replaced by its contract: requires obliged, the proved ensures assumed"""
+    def h(wp, n, args, callee):
+        if len(args) != (4 if weighted else 3):
+            raise nvwp.Unsupported('forwarding call with an unexpected number of arguments')
+        a, off, ln = wp.view(args[0]).c
+        wp.oblige('callee precondition: the whole input list is handed over', f'(and (= {off} 0) (= {ln} n))' if a == wp.input else 'false', n)
+        if weighted:
+            w = ixmodel.look(args[1])
+            if w.get('kind') == 'CXXConstructExpr' and len(w.get('inner', [])) == 1:
+                w = ixmodel.look(w['inner'][0])       # by-value copy of the weight map
+            ok = w.get('kind') == 'DeclRefExpr' and wp.env.get(w['referencedDecl']['name'], V('', '')).s == 'Weights'
+            wp.oblige('callee precondition: the weights handed over are the caller\'s weight vector', 'true' if ok else 'false', n)
+        cnt = wp.ev(args[-2])
+        wp.rng(args[-1])
+        for label, t in sampler_requires('n', cnt.t, replacement):
+            wp.oblige(f'callee precondition: {label}', t, n)
+        t = wp.tmp()
+        wp.env[t] = V(t, 'Arr')
+        for f, srt in FIELDS:
+            wp.env[f'{t}.{f}'] = wp.fresh(srt, f'ret_{f}')
+        for _, term in sampler_ensures(lambda k: wp.f(t, k), replacement, weighted, cnt.t):
+            wp.assume(term)
+        return V(t, 'Arr')
+    return h
+
+
+def build_sampler(name, cxx, select, input_name, weighted=False, replacement=True, forwards=False):
     fn = astload.find_definition(STU, 'nano::' + cxx, cxx, select)
     src = astload.resolve_tu(STU)
     wp = new_wp(name, input_name)
     wp.env['count'] = wp.const('count', 'Int', 'long')
     wp.env['rng'] = V('rng', 'Rng', ('true', '0'))      # the caller's generator, any state
-    if replacement:
-        # requires: 0 <= count, and a non-empty input -- the library's own assert(min <= max) inside make_udist(0, size-1)
-        # / a non-empty weight range for std::discrete_distribution
-        wp.assume(f'(and (<= 0 count) (<= count {NMAX}) (>= n 1))')
-    else:
-        # requires: the library's own assert(count <= samples.size()); property: counts 0..n
-        wp.assume('(and (<= 0 count) (<= count n))')
+    for _, t in sampler_requires('n', 'count', replacement):
+        wp.assume(t)
     if weighted:
         # requires: assert(samples.size() == weights.size()), assert(weights.min() >= 0) and a positive total weight
         # (precondition of std::discrete_distribution): some ghost position gw carries a positive weight
@@ -258,17 +302,12 @@ def build_sampler(name, cxx, select, input_name, weighted=False, replacement=Tru
     def post(wp, rv):
         if rv is None or rv.s != 'Arr':
             return [('the function returns an index vector', 'false')]
-        e = lambda k: wp.f(rv.t, k)
-        out = [('returns `count` indices', f'(= {e("size")} count)'),
-               ('every slot of the result is filled exactly once', filled_once(e)),
-               ('every element of the result is a member of the input', e('memb')),
-               ('the result is sorted', whole_sorted(e))]
-        if not replacement:
-            out.append(('the members are distinct: input element g is taken at most once, and only if it exists',
-                        f'(and (<= 0 {e("cnt")}) (<= {e("cnt")} {ING}))'))
-        if weighted:
-            out.append(('no returned index has zero weight (given std::discrete_distribution never draws one)', e('poswt')))
-        return out
+        return sampler_ensures(lambda k: wp.f(rv.t, k), replacement, weighted)
+    if forwards:
+        # convenience overload: creates its own rng and forwards to the overload proved above, used by contract
+        wp.calls += [(r'^sample_without_replacement\|', h_sampler_call(False, False)),
+                     (r'^sample_with_replacement\|nano::indices_t \(nano::sample_indices_t, nano::sample_weights_t', h_sampler_call(True, True)),
+                     (r'^sample_with_replacement\|', h_sampler_call(True, False))]
     wp.post = post
     wp.run(fn, src)
     if wp.returns == 0:
@@ -372,7 +411,10 @@ def build(tier):
     for r in (build_idiv(), build_split('kfold_split', KFOLD, False), build_split('random_split', RANDOM, True),
               build_sampler('sample_without_replacement', 'sample_without_replacement', nparams(3), 'samples_', replacement=False),
               build_sampler('sample_with_replacement', 'sample_with_replacement', nparams(3), 'samples'),
-              build_sampler('sample_with_replacement_weighted', 'sample_with_replacement', nparams(4, True), 'samples', weighted=True)):
+              build_sampler('sample_with_replacement_weighted', 'sample_with_replacement', nparams(4, True), 'samples', weighted=True),
+              build_sampler('sample_without_replacement/own_rng', 'sample_without_replacement', nparams(2), 'samples', replacement=False, forwards=True),
+              build_sampler('sample_with_replacement/own_rng', 'sample_with_replacement', nparams(2), 'samples', forwards=True),
+              build_sampler('sample_with_replacement_weighted/own_rng', 'sample_with_replacement', nparams(3, True), 'samples', weighted=True, forwards=True)):
         vcs += r[0]
         fns.append(r[1])
     vcs += lemmas()
@@ -390,7 +432,6 @@ def build(tier):
         'not_decided': [
             'that std::shuffle/std::sort/std::generate/std::discrete_distribution behave as specified (assumed contracts)',
             'sample_from_ball (floating-point norm computation: only a real-arithmetic statement would be possible)',
-            'the convenience overloads that create their own rng (make_rng()) and forward',
             'n == 0 for sample_with_replacement: excluded by precondition (make_udist(0, -1) violates the library\'s own assert(min <= max) even for count == 0)'],
         'assumptions': [
             'std::shuffle(first,last,rng) permutes [first,last) in place, the permutation being a function of the length and the rng state only',
